@@ -7,6 +7,11 @@
 // Oracle: a deep snapshot (snapshot.go) of EVERY live value is compared with the snapshot
 // taken before the operation, and with the snapshot taken at creation at the end of the
 // history. ops.go holds the operation table.
+//
+// Two further case families run in batches appended after the classic ones: second-API
+// histories (secondapi.go: encoding/json, fmt, sort, gob, type-class instances applied to
+// copies of live values) and long-run cases (longrun.go: more than 2^16 calls of every
+// operation kind in one process with early results re-visited at exact call distances).
 package main
 
 import (
@@ -104,6 +109,8 @@ type entry struct {
 	desc  string
 	first *snap
 	last  *snap
+	// long-run cases: the live value this one was derived from
+	parent *entry
 }
 
 type opRec struct {
@@ -156,12 +163,13 @@ type hist struct {
 	cur      opRec
 	fresh    []*entry // results of the running operation
 	curB     *builderV
-	afterB   bool // the running operation is a use of a builder after Build
-	ext      bool // second-API history: the ext operations of the table are eligible too
-	quiet    bool // long-run filler call: arguments are not rendered
-	logMax   int  // 0 = 400
+	afterB   bool           // the running operation is a use of a builder after Build
+	ext      bool           // second-API history: the ext operations of the table are eligible too
+	quiet    bool           // long-run filler call: arguments are not rendered
+	logMax   int            // 0 = 400
 	extra    map[string]any // further witness fields
 	lr       *lrun
+	hot      []int // long-run hammer phase: the keys of the value that receives all calls
 }
 
 func (h *hist) witness() any {
@@ -641,6 +649,17 @@ func (h *hist) run(steps int) {
 	if h.n(2) == 0 {
 		h.apply(opByName["harness.new-arena"], nil)
 	}
+	if h.ext {
+		// second-API histories start with Options over live slices / one Go map / one pointer,
+		// a struct holding such Options (and a copy of it), a Seq and a Go map of Options
+		base := h.pool[0]
+		h.apply(opByName["fp.Some"], []*entry{base})
+		opt := h.byKind(kOpt)[0]
+		h.apply(opByName["harness.new-optmap"], nil)
+		h.apply(opByName["harness.new-optptr"], []*entry{base})
+		h.apply(opByName["harness.new-optseqs"], []*entry{base, opt})
+		h.apply(opByName["harness.new-doc"], []*entry{base, opt})
+	}
 	for s := 0; s < steps && !h.failed; s++ {
 		h.step()
 	}
@@ -664,17 +683,23 @@ func (h *hist) run(steps int) {
 	h.w.Max("max_live_values_at_end", int64(len(h.pool)))
 }
 
-func runCase(w *vrt.W, i int) {
+func runCase(w *vrt.W, i int, ext bool) {
 	r := w.Rand(i)
 	steps, maxLive := 30, 14
 	if w.Tier == "thorough" {
 		steps, maxLive = 60, 18
 	}
-	h := &hist{w: w, idx: i, r: r, universe: []int{6, 12, 24, 48}[r.IntN(4)], maxLive: maxLive}
+	if ext {
+		maxLive += 10
+	}
+	h := &hist{w: w, idx: i, r: r, universe: []int{6, 12, 24, 48}[r.IntN(4)], maxLive: maxLive, ext: ext}
 	w.Begin(i, "history")
 	w.Guard(i, h.witness, func() { h.run(steps) })
 	w.Done(i)
 	w.Add("histories", 1)
+	if ext {
+		w.Add("histories.second_api", 1)
+	}
 	if h.shared {
 		w.Add("histories.with_op_on_shared_storage", 1)
 		w.DistinctHash(h.fp)
@@ -684,34 +709,60 @@ func runCase(w *vrt.W, i int) {
 	}
 }
 
+// Batch layout: [classic histories | second-API histories | long-run cases]; the newer
+// families are appended so that the classic batches keep their numbers and PRNG streams.
+type layoutT struct{ classic, second, long, longCases int }
+
+func layout(tier string) layoutT {
+	if tier == "thorough" {
+		return layoutT{classic: 160, second: 40, long: 16, longCases: 2}
+	}
+	return layoutT{classic: 16, second: 8, long: 8, longCases: 2}
+}
+
 func main() {
 	vrt.Main(vrt.Config{
 		Property: "C04",
 		Batches: func(tier string) int {
-			if tier == "thorough" {
-				return 160
-			}
-			return 16
+			l := layout(tier)
+			return l.classic + l.second + l.long
 		},
 		Cases: func(tier string, b int) int {
-			if tier == "thorough" {
-				return 250
+			l := layout(tier)
+			if b >= l.classic+l.second {
+				return l.longCases
 			}
 			return 250
 		},
-		RaceBatch: func(tier string, b int) bool { return tier == "thorough" && b%10 == 0 },
+		RaceBatch: func(tier string, b int) bool {
+			return tier == "thorough" && b%10 == 0 && b < layout(tier).classic+layout(tier).second
+		},
+		CaseCPUBudget: 240,
 		Run: func(w *vrt.W) {
+			l := layout(w.Tier)
 			for i := w.From; i < w.To; i++ {
-				runCase(w, i)
+				switch {
+				case w.Batch < l.classic:
+					runCase(w, i, false)
+				case w.Batch < l.classic+l.second:
+					runCase(w, i, true)
+				default:
+					runLongCase(w, i)
+				}
 			}
 		},
-		Rule: "case = one branching history: a pool of live values (int slices cut from shared arenas with spare capacity, sub-slice views, Go maps, fp.Map/fp.Set from immutable.Map/Set, MapBuilder/SetBuilder, seq|iterator|list.ToMap/ToSet and the zero values over 6 hashers incl. fully colliding ones, builders with what they handed out, fp.List as Cons / slice-backed / lazy, Option/Try/Tuple2 holding live slices, Seq[Seq]) and 30 (quick) / 60 (thorough) PRNG-chosen steps, each applying one library operation from the table (hits) to PRNG-chosen live value(s) and adding the result(s) to the pool (max 14/18 live values, random older ones are forgotten). After every step a deep snapshot of every live value (slices up to capacity, maps, pointers, unexported struct fields, plus the public-API view of fp.Map/fp.Set/fp.List) is compared with its snapshot from before the step, and at the end with its snapshot at creation. A difference confined to the part of a slice between len and cap is counted (spare_capacity_changed_but_invisible) but is a violation only when a live value sees that memory inside its length (then that value differs). distinct_nontrivial counts distinct operation-sequence fingerprints of histories in which at least one operation was applied to a value whose walked memory regions (slice backing arrays up to cap, pointees, map headers) overlap those of another live value, measured from the snapshots.",
+		Rule: "case = one branching history: a pool of live values (int slices cut from shared arenas with spare capacity, sub-slice views, Go maps, fp.Map/fp.Set from immutable.Map/Set, MapBuilder/SetBuilder, seq|iterator|list.ToMap/ToSet and the zero values over 6 hashers incl. fully colliding ones, builders with what they handed out, fp.List as Cons / slice-backed / lazy, Option/Try/Tuple2 holding live slices, Seq[Seq]) and 30 (quick) / 60 (thorough) PRNG-chosen steps, each applying one library operation from the table (hits) to PRNG-chosen live value(s) and adding the result(s) to the pool (max 14/18 live values, random older ones are forgotten). After every step a deep snapshot of every live value (slices up to capacity, maps, pointers, unexported struct fields, plus the public-API view of fp.Map/fp.Set/fp.List) is compared with its snapshot from before the step, and at the end with its snapshot at creation. A difference confined to the part of a slice between len and cap is counted (spare_capacity_changed_but_invisible) but is a violation only when a live value sees that memory inside its length (then that value differs). " +
+			"Second-API histories (batches after the classic ones) additionally hold Option[map], Option[*struct], a struct holding Options with slice/map/pointer/struct payloads plus a Seq and a Go map of Options, all sharing payload storage with other live values, and draw every other step from the second-API operations: encoding/json Unmarshal of a PRNG document into a COPY of a live Option / struct / Seq[Option] / map[string]Option (the copy is a new value; every other live value incl. the one copied from must be unchanged), Marshal + Unmarshal round trips, fmt.Sprint / String() / show instances, clone instances, package sort and slices with ord instances on copies whose elements are live, eq/hash instances, gob round trips of tuples. " +
+			"Long-run cases (last batches, 2 per batch, modes phased / hammer / mixed): a set of ~70 live values, then for each of 24 operation kinds more than 70 000 separate library calls of that kind in ONE process (on throw-away values and on the live ones), with derivations kept live before, at PRNG positions in the middle and after, and the same operation applied again to an early result (or a descendant sharing structure, or the same input) exactly 255/256/32767/32768/65535/65536 calls later (phased: calls of that kind, nothing else in between; mixed: total calls, all kinds round-robin; hammer: per kind ONE early result — or its descendant, or for conversions the input — receives all 70 000 calls of the phase, so a recycled id / buffer meets the value still carrying the first one whatever the library counts); related live values are compared at every such event, the whole pool at every phase end and at the end. " +
+			"distinct_nontrivial counts distinct operation-sequence fingerprints of histories in which at least one operation was applied to a value whose walked memory regions (slice backing arrays up to cap, pointees, map headers) overlap those of another live value, measured from the snapshots (long-run cases: a re-visit at distance >= 65535 hit such a value).",
 		Assumptions: []string{
 			"histories are PRNG samples, element type int, at most 64 elements per value",
 			"captured variables of closures (e.g. the sync.Once memo of lazy lists, iterator state) are not walked; lazy lists are observed through Head/Tail",
 			"fp.Iterator values are single-use cursors and are not pool values; only their sources and results are",
 			"callbacks given to the library are pure",
 			"race batches (thorough): 2 goroutines apply read-only operations to shared live values; only reports with a frame under /repo count",
+			"second APIs: encoding/json and encoding/gob themselves re-use slices, maps and pointers they find in a decoding target; that is not the library's doing, so a copy used as target shares storage with live values only below an fp.Option (where Option.UnmarshalJSON decides what is written), outer Seq / Go map containers of a copy are copied one level, gob decodes into zero values",
+			"long-run cases count harness-level calls (one builder cycle = Add… + Build = one call); wrap-arounds of library-internal counters that advance differently are only met by chance",
 		},
 		Floors: func(tier string) map[string]int64 {
 			f := map[string]int64{"snapshots_compared": 1000000, "ops.on_value_sharing_storage": 10000, "distinct": 2000, "results.sharing_storage_with_input": 5000, "builder.refused_after_build": 1, "concurrent.rounds": 10, "live.tries_with_hash_array_node": 50, "live.tries_with_collision_node": 50, "live.tries_with_bitmap_node": 50, "live.tries_with_array_node": 50, "live.collections_backed_by_go_map": 50}
@@ -721,10 +772,28 @@ func main() {
 			for _, n := range extraHitNames {
 				f["hit."+n] = 5
 			}
+			// second APIs
+			f["secondapi.decode_into_copy_sharing_storage_with_live_value"] = 2000
+			f["secondapi.json_unmarshal_calls"] = 5000
+			f["secondapi.gob_round_trips"] = 10
+			// long run: every case performs > 2^16 calls of every kind in one process
+			l := layout(tier)
+			nLong := int64(l.long * l.longCases)
+			f["longrun.cases_with_at_least_70000_calls_of_every_kind"] = nLong
+			for _, K := range lrKinds(nil) {
+				f["longrun.calls."+K.name] = lrFloor * nLong
+			}
+			for _, d := range []int{255, 256, 32767, 32768, 65535, 65536} {
+				f[fmt.Sprintf("longrun.revisits_exactly_%d_calls_later", d)] = 150*lrModeCount(tier, "phased") + 50*lrModeCount(tier, "mixed")
+			}
+			f["longrun.revisits_at_2^16_on_value_sharing_storage"] = 20 * (lrModeCount(tier, "phased") + lrModeCount(tier, "mixed"))
+			f["longrun.phases_with_all_calls_on_one_early_result"] = int64(len(lrKinds(nil))) * lrModeCount(tier, "hammer")
 			return f
 		},
 		Finish: func(tier string, m *vrt.Merged, cov map[string]any) {
 			cov["operations_in_table"] = len(ops) + len(extraHitNames)
+			cov["long_run_operation_kinds"] = len(lrKinds(nil))
+			cov["long_run_calls_per_kind_and_case_at_least"] = lrFloor
 			cov["snapshots_compared"] = m.Counters["snapshots_compared"]
 			if h := m.Counters["histories"]; h > 0 {
 				cov["mean_live_values_at_end"] = float64(m.Counters["live_values_at_end"]) / float64(h)
